@@ -27,6 +27,7 @@ func c14(c *eng.Ctx, r *eng.Report) {
 		"R14.7 VerifySig is the only function of the node that evaluates the signature pairing (no second, e.g. aggregated, definition of validity), and the scalar hex printer/parser are an inverse pair. " +
 		"R14.8 the pairing is 1 as soon as either operand is the identity: optimalAte tests IsInfinity() of both its operands and sets the result to one under either (e(P,O) = e(O,Q) = 1 is what bilinearity needs at k = 0 and k = order). " +
 		"R14.9 a groupsig function whose pointer result some caller dereferences without a nil test (`*groupsig.DeserializeSign(raw)`) has no nil return — a malformed signature from a peer verifies as false, it does not crash the verifier. " +
+		"R14.15 a decoder that reports an error leaves no value behind: in Signature.unmarshalExact and Pubkey.unmarshalExact no path leads from the assignment of the decoded point to an error return without the receiver being reset — DeserializeSign and the other convenience wrappers drop the error and test the value, so a valid 64-byte signature followed by junk would otherwise decode to the valid signature and verify; " +
 		"R14.14 (= R13.12) the hex form of secret keys and ids round-trips: BnInt's writer (big.Int.Text(16), minimal digits) and reader (big.Int.SetString(_, 16)) agree; " +
 		"R14.13 the zero multiple of a point is the identity: in (*curvePoint).Mul and (*twistPoint).Mul the base point enters the running sum only under a set bit of the scalar (every Set/Add that reads the base operand is dominated by scalar.Bit(i) != 0) — an accumulator seeded with the base itself returns Q for the scalar 0, so secret key 0 (or r) shares key 1's public key and e(P, 0·Q) != e(P, Q)^0; " +
 		"R14.12 every addition formula has its doubling exit: a function of the bn256 package reachable from (*curvePoint).Add or (*twistPoint).Add that subtracts field elements (the chord formulas divide by the difference of the operands' coordinates) also calls Double of its point type — P + P is 2P, not the identity the chord formula yields for equal operands (e(P+P, Q) = e(P, Q)^2, and a scalar multiplication whose running sum meets its base keeps going); " +
@@ -57,6 +58,7 @@ func c14(c *eng.Ctx, r *eng.Report) {
 	c14AddHandlesDoubling(c, r)
 	c14MulStartsAtIdentity(c, r)
 	hexCodecAgreeAs(c, r, "R14.14")
+	c14ErrorLeavesNoValue(c, r)
 }
 
 func c14Verify(c *eng.Ctx, r *eng.Report) {
@@ -384,6 +386,10 @@ func c14LeftPadAs(c *eng.Ctx, r *eng.Report, rule string) {
 		for _, fn := range c.PkgFuncs(pkg) {
 			idx := 0
 			for _, s := range eng.Sites(fn) {
+				if strings.HasSuffix(s.Name(), ".RightPadBytes") {
+					r.Fail(rule, "right-pad:"+eng.FuncName(fn), c.Pos(s.Pos()), eng.FuncName(fn)+" pads with "+s.Name()+": every fixed-width value in these packages is a big-endian integer, whose short forms are missing leading zeros — padded on the right, an id or scalar with a leading zero byte (1 in 256) serialises shifted, and the bytes, hex and JSON round trips all yield a different value")
+					continue
+				}
 				if s.Name() != "builtin:copy" {
 					continue
 				}
@@ -714,5 +720,61 @@ func c14MulStartsAtIdentity(c *eng.Ctx, r *eng.Report) {
 			}
 		}
 		r.Check(bad == "" && n >= 1, rule, "mul-identity:(*"+typ+").Mul", c.Pos(fn.Pos()), fmt.Sprintf("%d use(s) of the base point, each under a set scalar bit", n), "(*"+typ+").Mul reads the base point outside a set-bit branch ("+bad+"): the running sum no longer starts at the identity, so Mul(Q, 0) returns Q — the secret key 0 (NewSeckeyFromBigInt(Order)) gets the public key of secret key 1, key 1's signature verifies under it, and the pairing is not bilinear at the zero multiple")
+	}
+}
+
+// c14ErrorLeavesNoValue: see R14.15.
+func c14ErrorLeavesNoValue(c *eng.Ctx, r *eng.Report) {
+	const rule = "R14.15"
+	r.Min(rule, 1)
+	n := 0
+	for _, name := range []string{"(*Signature).unmarshalExact", "(*Pubkey).unmarshalExact", "(*Signature).Deserialize", "(*Pubkey).Deserialize"} {
+		fn := c.Func(gsPkg, name)
+		if fn == nil || fn.Blocks == nil {
+			continue
+		}
+		var decoded []ssa.Instruction
+		isReset := func(in ssa.Instruction) bool {
+			st, ok := in.(*ssa.Store)
+			if !ok {
+				return false
+			}
+			if _, f := eng.FieldOf(st.Addr); f != "value" {
+				return false
+			}
+			_, isConst := st.Val.(*ssa.Const)
+			return isConst
+		}
+		for _, b := range fn.Blocks {
+			for _, in := range b.Instrs {
+				if st, ok := in.(*ssa.Store); ok {
+					if _, f := eng.FieldOf(st.Addr); f == "value" && !isReset(in) {
+						decoded = append(decoded, in)
+					}
+				}
+			}
+		}
+		if len(decoded) == 0 {
+			continue
+		}
+		n++
+		bad := ""
+		for _, st := range decoded {
+			for _, re := range eng.Returns(fn) {
+				if eng.IsNilConst(re.Incoming(0)) {
+					continue
+				}
+				if re.Pred != nil {
+					// a phi of nil and an error: only the error edges matter; Incoming already picked this edge's value
+				}
+				if ok, _ := eng.ReachAvoiding(fn, st, re, isReset); ok {
+					bad = c.Pos(st.Pos()) + " → return at " + c.Pos(re.Ret.Pos())
+				}
+			}
+		}
+		r.Check(bad == "", rule, "error-leaves-no-value:"+name, c.Pos(fn.Pos()), "no error return is reachable from the assignment of the decoded point without a reset", name+" can return an error with the decoded point still stored in the receiver ("+bad+"): the wrappers that drop the error (DeserializeSign in the block, beacon and group verification paths) then hold a valid signature for an over-long encoding — 64 valid bytes followed by junk verify")
+	}
+	if n == 0 {
+		r.Fail(rule, "error-leaves-no-value:none", "", "no decoder assigning a decoded point found: the rule has lost its anchor")
 	}
 }
